@@ -24,7 +24,7 @@ COMPONENTS = {"real": "whole IPhreeqc library built from /repo (C++ class, C bin
 ASSUMPTIONS = ["Fortran glue functions are called from C with C strings; the F90 module itself is not compiled",
                "the reference model encodes IPhreeqc.h/IPhreeqc.hpp documentation and the defaults of the constructor"]
 REACH_PROBES = ["dead_id_calls", "f_truncations", "concurrent_plans", "sweeps"]
-tiers = {"quick": dict(runs=1600, budget_s=100, workers=16), "thorough": dict(runs=41110, budget_s=1500, workers=16)}
+tiers = {"quick": dict(runs=4000, budget_s=100, workers=16), "thorough": dict(runs=41110, budget_s=1500, workers=16)}
 
 SW = ["DumpFileOn", "DumpStringOn", "ErrorFileOn", "ErrorOn", "ErrorStringOn", "LogFileOn", "LogStringOn", "OutputFileOn", "OutputStringOn"]
 SELSW = ["SelectedOutputFileOn", "SelectedOutputStringOn"]
